@@ -12,6 +12,9 @@ func zzDigit6() byte {
 	return d
 }
 
+// zzLongerIDs: also generate 14-digit ids (set by the harnesses whose oracle is written for them)
+var zzLongerIDs bool
+
 type zzTrig6 struct {
 	buf      []byte
 	mode     byte
@@ -70,6 +73,9 @@ func zzMakeTriggerX(buf []byte, longID bool, plain bool) zzTrig6 {
 			t.id = append(t.id, byte('0'+i%10))
 		}
 		t.id = append(t.id, zzDigit6(), zzDigit6())
+		if zzLongerIDs && verifNondetBool() {
+			t.id = append(t.id, zzDigit6()) // ids may have more than 13 digits
+		}
 	} else {
 		n := verifNondetRange(1, 3)
 		for i := 0; i < n; i++ {
@@ -112,6 +118,7 @@ func zzCheckTrigger(trig *trzszTrigger, t zzTrig6) {
 	verifAssert(trig.uniqueID == string(t.id), "unique id")
 	verifAssert(trig.tunnelPort == t.port, "port")
 	win := (len(t.id) == 1 && t.id[0] == '1') || (len(t.id) == 13 && t.id[11] == '1' && t.id[12] == '0')
+	_ = zzLongerIDs
 	verifAssert(trig.winServer == win, "windows-server flag")
 }
 
@@ -148,14 +155,15 @@ func zzH_C06_client() {
 
 // relay mode: forwarded in a form the real client still recognises (same fields), marked as relayed
 func zzH_C06_relay() {
+	zzLongerIDs = true
 	t := zzMakeTrigger(zzPrefix6(verifBound("PREFIX")), verifNondetBool())
 	in := zzClone6(t.buf)
 	tmux := verifNondetBool()
 	det := newTrzszDetector(true, tmux)
 	out, trig := det.detectTrzsz(t.buf, false)
 	want := t
-	if tmux && len(t.id) == 13 && t.id[11] == '0' && t.id[12] == '0' {
-		want.id = append(zzClone6(t.id[:11]), '2', '0') // re-tagged as seen through tmux
+	if n := len(t.id); tmux && n >= 13 && t.id[n-2] == '0' && t.id[n-1] == '0' {
+		want.id = append(zzClone6(t.id[:n-2]), '2', '0') // ids of 13+ digits ending 00 are re-tagged as seen through tmux
 	}
 	zzCheckTrigger(trig, want)
 	if trig == nil {
